@@ -462,6 +462,11 @@ def run_property(modname: str, tier: str, seed: int, workers: int) -> int:
     sys.stdout.flush()
     if new_violations:
         return 1
+    # a sub-check that evaluated nothing decides nothing: say so loudly (a skipped fuzz campaign is announced in the notes)
+    idle = [name for name, ps in per_sub.items() if ps["evaluations"] == 0 and not any("skipped" in n for n in notes)]
+    if idle:
+        sys.stderr.write(f"HARNESS-ERROR {prop}: sub-check(s) {idle} evaluated no case at all\n")
+        return 2
     if vacuous:
         sys.stderr.write(
             f"HARNESS-ERROR {prop}: only {len(nontrivial)} distinct non-trivial cases "
